@@ -418,6 +418,7 @@ def b_dict_wf(ex: Exec, node: ast.Call) -> SV:
         parts += [
             z3.ForAll([i], z3.Implies(z3.And(0 <= i, i < z3.Length(s0)), z3.Select(dom, S.ELT(s0, i)))),
             z3.ForAll([i, j], z3.Implies(z3.And(0 <= i, i < j, j < z3.Length(s0)), S.ELT(s0, i) != S.ELT(s0, j))),
+            z3.ForAll([k], z3.Implies(z3.Select(dom, k), z3.And(0 <= ki, ki < z3.Length(s0), S.ELT(s0, ki) == k))),
         ]
     return sv_bool(z3.And(parts))
 
